@@ -1,0 +1,35 @@
+//go:build verif
+
+package deque
+
+// Read-only introspection used by the runtime monitors in /verif. Compiled only with -tags verif.
+
+// VerifState is the raw representation of a Deque.
+type VerifState struct {
+	Cap       int
+	Allocated bool
+	Front     int
+	Back      int
+	Gen       int
+}
+
+// VerifState returns the raw fields of d.
+func (d *Deque[T]) VerifState() VerifState {
+	return VerifState{
+		Cap:       len(d.a),
+		Allocated: d.a != nil,
+		Front:     d.front,
+		Back:      d.back,
+		Gen:       d.gen,
+	}
+}
+
+// VerifSlots returns a copy of the raw backing slice of d, including the slots that hold no item.
+func (d *Deque[T]) VerifSlots() []T {
+	if d.a == nil {
+		return nil
+	}
+	out := make([]T, len(d.a))
+	copy(out, d.a)
+	return out
+}
